@@ -7,7 +7,7 @@ import copy
 from simkit import model_world as M
 from simkit.core import EventLog, Violations, canon, sha
 
-RUN_CAP_S = 120
+RUN_CAP_S = 900
 
 
 # ---------------------------------------------------------------------------- logical tasks
